@@ -6,6 +6,12 @@
                graph := k (num gen obj)*k ; obj as in Driver/TypeCheckCodec.lean
   model : the C08 machine (Model/TypeCheck.lean, tree configuration `Fix.tree`) on the REGENERATED shipped
           specification `Gen.CatalogSpec.catalog` / `.ctx`.
+  gen   : the rules' tables cover EVERY entry of the shipped catalog, page, template, root and node types, of the name
+          dictionary and of /Resources (`rules_tables_complete`, Props/C10Keys.lean): rendered documents carry each entry
+          well-typed (exhaustively in the third fixed document `exDocFull`, at random in the v/m streams); the exhaustive
+          stream replaces the value of each key of each type by one value of every other object type (`basicJunk`) and
+          by the near misses of its kind (`junkFor`: rectangles of 3/5 numbers, date strings, tree nodes, each name tree
+          of the name dictionary, each /Resources sub-entry, arrays with one element of the wrong type).
   judge : the RULES of Spec/CatalogRules.lean: the case is re-derived from (seed, stream, idx), the document
           must be well-formed, the mutation a valid single-rule violation, and the line must be exactly its
           rendering; a rendered document must be accepted, a mutated one rejected.  When the implementation
@@ -25,7 +31,8 @@ import Parsley.Gen.CatalogSpec
 import Parsley.Spec.CatalogRules
 namespace Driver.C10
 open Parsley Parsley.TC Driver Driver.TCCodec
-open Parsley.CatalogRules (Doc Node Nodes PageOpts CatOpts Mutation Where Rect Num Date Offset Tree DictKind ValKind)
+open Parsley.CatalogRules (Doc Node Nodes PageOpts CatOpts Mutation Where Rect Num Date Offset Tree DictKind ValKind
+  GDict GStream Contents Resources PageExtra CatExtra)
 
 def fuel : Nat := 400000
 
@@ -132,6 +139,77 @@ def genInt (r : Rng) : Int × Rng :=
   let (v, r) := r.nat 400
   (Int.ofNat v - 100, r)
 
+/-- an arbitrary small object (element of a generic array, value of a generic dictionary) -/
+def genAnyObj (r : Rng) : Obj × Rng :=
+  let (k, r) := r.nat 8
+  let (v, r) := r.nat 60
+  match k with
+  | 0 => (.int (Int.ofNat v - 30), r)
+  | 1 => (.name (asc s!"N{v}"), r)
+  | 2 => (.ref (900 + v) 0, r)
+  | 3 => (.dict .nil, r)
+  | 4 => (mkArr [.int v, .null], r)
+  | 5 => (.str (asc s!"s{v}"), r)
+  | 6 => (.bool (v % 2 == 0), r)
+  | _ => (.real (Int.ofNat v) 4, r)
+
+def genGDict (r : Rng) : GDict × Rng :=
+  let (k, r) := r.nat 3
+  if k == 0 then (.empty, r) else
+    let (n, r) := r.nat 20
+    let (v, r) := genAnyObj r
+    (.one (asc s!"K{n}") v, r)
+
+def genStream (r : Rng) : GStream × Rng :=
+  let (g, r) := genGDict r
+  let (n, r) := r.nat 5
+  let (bs, r) := Rng.bytes n r
+  (⟨g, bs⟩, r)
+
+def genContents (r : Rng) : Contents × Rng :=
+  let (k, r) := r.nat 2
+  if k == 0 then let (s, r) := genStream r; (.one s, r)
+  else let (l, r) := genList 3 genStream r; (.many l, r)
+
+def genResources (r : Rng) : Resources × Rng :=
+  let (a, r) := genOpt 1 2 genGDict r
+  let (b, r) := genOpt 1 2 genGDict r
+  let (c, r) := genOpt 1 2 genGDict r
+  let (d, r) := genOpt 1 2 genGDict r
+  let (e, r) := genOpt 1 2 (genList 3 genAnyObj) r
+  let (f, r) := genOpt 1 2 genGDict r
+  let (g, r) := genOpt 1 2 genGDict r
+  let (h, r) := genOpt 1 2 genGDict r
+  (⟨a, b, c, d, e, f, g, h⟩, r)
+
+/-- every further entry of the page / template type, each present one time in five -/
+def genPageExtra (r : Rng) : PageExtra × Rng :=
+  let (aa, r) := genOpt 1 5 genGDict r
+  let (af, r) := genOpt 1 5 (genList 3 genGDict) r
+  let (artBox, r) := genOpt 1 5 genRect r
+  let (b, r) := genOpt 1 3 (genList 3 genAnyObj) r
+  let (bleedBox, r) := genOpt 1 5 genRect r
+  let (boxColorInfo, r) := genOpt 1 5 genGDict r
+  let (contents, r) := genOpt 1 3 genContents r
+  let (dPart, r) := genOpt 1 5 genGDict r
+  let (dur, r) := genOpt 1 5 genNum r
+  let (group, r) := genOpt 1 5 genGDict r
+  let (metadata, r) := genOpt 1 5 genStream r
+  let (outputIntents, r) := genOpt 1 5 (genList 3 genAnyObj) r
+  let (pz, r) := genOpt 1 5 genNum r
+  let (pieceInfo, r) := genOpt 1 5 genGDict r
+  let (presSteps, r) := genOpt 1 5 genGDict r
+  let (resources, r) := genOpt 1 3 genResources r
+  let (separationInfo, r) := genOpt 1 5 genGDict r
+  let (structParents, r) := genOpt 1 5 genInt r
+  let (templateInstantiated, r) := genOpt 1 5 (fun r => let (k, r) := r.nat 9; (asc s!"T{k}", r)) r
+  let (thumb, r) := genOpt 1 5 genStream r
+  let (trans, r) := genOpt 1 5 genGDict r
+  let (trimBox, r) := genOpt 1 5 genRect r
+  let (vp, r) := genOpt 1 5 (genList 3 genAnyObj) r
+  ({ aa, af, artBox, b, bleedBox, boxColorInfo, contents, dPart, dur, group, metadata, outputIntents, pz, pieceInfo,
+     presSteps, resources, separationInfo, structParents, templateInstantiated, thumb, trans, trimBox, vp }, r)
+
 def genPageOpts (r : Rng) : PageOpts × Rng :=
   let (annots, r) := genOpt 1 4 (genList 3 fun r => let (i, r) := r.nat 50; (900 + i, r)) r
   let (crop, r) := genOpt 1 4 genRect r
@@ -141,7 +219,10 @@ def genPageOpts (r : Rng) : PageOpts × Rng :=
   let (rot, r) := genOpt 1 4 (fun r => let (k, r) := r.nat 4; (Int.ofNat (k * 90), r)) r
   let (tabs, r) := genOpt 1 4 (genFin 5 (by decide)) r
   let (uu, r) := genOpt 1 5 genNum r
-  (⟨annots, crop, id, lm, media, rot, tabs, uu⟩, r)
+  -- one page in four carries only the entries of the first menu
+  let (k, r) := r.nat 4
+  let (x, r) := if k == 0 then (PageExtra.none, r) else genPageExtra r
+  (⟨annots, crop, id, lm, media, rot, tabs, uu, x⟩, r)
 
 /-- a random subtree; object numbers are allocated consecutively from `next` -/
 partial def genNode (depth fan : Nat) (next : Nat) (r : Rng) : Node × Nat × Rng :=
@@ -157,6 +238,40 @@ partial def genNode (depth fan : Nat) (next : Nat) (r : Rng) : Node × Nat × Rn
       (kid :: acc.1, nx, r)) ([], next + 1, r)
     (.pages next c (Nodes.ofList kids.reverse), nx, r)
 
+/-- every further entry of the catalog type and the other eight name trees, each present one time in five -/
+def genCatExtra (next : Nat) (r : Rng) : CatExtra × Rng :=
+  let (aa, r) := genOpt 1 5 genGDict r
+  let (af, r) := genOpt 1 5 (genList 3 genGDict) r
+  let (acroForm, r) := genOpt 1 5 genGDict r
+  let (collection, r) := genOpt 1 5 genGDict r
+  let (dPartRoot, r) := genOpt 1 5 genGDict r
+  let (dss, r) := genOpt 1 5 genGDict r
+  let (dests, r) := genOpt 1 4 (fun r => (next + 2, r)) r
+  let (extensions, r) := genOpt 1 5 genGDict r
+  let (legal, r) := genOpt 1 5 genGDict r
+  let (markInfo, r) := genOpt 1 5 genGDict r
+  let (ocProperties, r) := genOpt 1 5 genGDict r
+  let (outputIntents, r) := genOpt 1 5 (genList 3 genAnyObj) r
+  let (perms, r) := genOpt 1 5 genGDict r
+  let (pieceInfo, r) := genOpt 1 5 genGDict r
+  let (requirements, r) := genOpt 1 5 (genList 3 genAnyObj) r
+  let (spiderInfo, r) := genOpt 1 5 genGDict r
+  let (structTreeRoot, r) := genOpt 1 5 genGDict r
+  let (threads, r) := genOpt 1 5 (genList 3 genAnyObj) r
+  let (uri, r) := genOpt 1 5 genGDict r
+  let (viewerPreferences, r) := genOpt 1 5 genGDict r
+  let (ap, r) := genOpt 1 6 (genTree genKeyStr) r
+  let (alternatePresentations, r) := genOpt 1 6 (genTree genKeyStr) r
+  let (ids, r) := genOpt 1 6 (genTree genKeyStr) r
+  let (javaScript, r) := genOpt 1 6 (genTree genKeyStr) r
+  let (pagesTree, r) := genOpt 1 6 (genTree genKeyStr) r
+  let (renditions, r) := genOpt 1 6 (genTree genKeyStr) r
+  let (templates, r) := genOpt 1 6 (genTree genKeyStr) r
+  let (urls, r) := genOpt 1 6 (genTree genKeyStr) r
+  ({ aa, af, acroForm, collection, dPartRoot, dss, dests, extensions, legal, markInfo, ocProperties, outputIntents,
+     perms, pieceInfo, requirements, spiderInfo, structTreeRoot, threads, uri, viewerPreferences, ap,
+     alternatePresentations, ids, javaScript, pagesTree, renditions, templates, urls }, r)
+
 def genCatOpts (next : Nat) (r : Rng) : CatOpts × Rng :=
   let (lang, r) := genOpt 1 4 genKeyStr r
   let (md, r) := genOpt 1 4 (fun r => (next, r)) r
@@ -169,7 +284,9 @@ def genCatOpts (next : Nat) (r : Rng) : CatOpts × Rng :=
   let (lay, r) := genOpt 1 3 (genFin 6 (by decide)) r
   let (mode, r) := genOpt 1 3 (genFin 6 (by decide)) r
   let (ver, r) := genOpt 1 4 (fun r => let (k, r) := r.nat 8; (asc s!"1.{k}", r)) r
-  (⟨lang, md, dests, emb, nr, oa, ol, pl, lay, mode, ver⟩, r)
+  let (k, r) := r.nat 4
+  let (x, r) := if k == 0 then (CatExtra.none, r) else genCatExtra next r
+  (⟨lang, md, dests, emb, nr, oa, ol, pl, lay, mode, ver, x⟩, r)
 
 def genDoc (depth fan : Nat) (r : Rng) : Doc × Rng :=
   let (n, r) := r.nat (fan + 1)
@@ -196,43 +313,85 @@ def positions (d : Doc) : List Where :=
 
 def dictOf (kvs : List (Bytes × Obj)) : Obj := .dict (mkDict kvs)
 
-/-- a menu of ill-typed (and some well-typed: filtered by `Mutation.valid`) replacement values -/
-def junk : List Obj :=
-  let s (x : String) : Obj := .str (asc x)
+def sO (x : String) : Obj := .str (asc x)
+def strm (kvs : List (Bytes × Obj)) : Obj := .stream (mkDict kvs) 0 []
+
+/-- replacement values tried under EVERY key: one of each object type (scalar types, the empty and a non-empty
+    array, dictionary, stream); `Mutation.valid` keeps the ill-typed ones for the key -/
+def basicJunk : List Obj :=
+  [.int 42, .name (asc "Foo"), sO "foo", .bool true, .null, .real 1 2, mkArr [], dictOf [], strm [],
+   mkArr [.int 1, .int 2, .int 3], dictOf [(asc "K", .int 1)], strm [(asc "L", .int 2)]]
+
+def rectJunk : List Obj :=
+  [mkArr [.int 1, .int 2, .int 3, .name (asc "x")], mkArr [.int 1, .int 2, .int 3, .int 4, .int 5],
+   mkArr [.int 0, .int 0, .real 612 1, .int 792], mkArr [.int 0, .int 0, .int 1, dictOf []]]
+
+def dateJunk : List Obj :=
+  [sO "D:20201", sO "D:202013", sO "D:2020Z", sO "D:20200231", sO "D:20201231235959+24'00", sO "D:2020123123595",
+   sO "D:20201231235959Z00'00''", sO "2020", sO "D:", sO "D:1999",
+   -- `\d` of the regex crate is the Unicode class Nd: ARABIC-INDIC digits in the year
+   .str ([0x44, 0x3A, 0xD9, 0xA1, 0xD9, 0xA9, 0xD9, 0xA9, 0xD9, 0xA9]),
+   .str ([0x44, 0x3A, 0x31, 0x39, 0x39, 0xFF])]
+
+/-- ill-formed (and a few well-formed) number-tree / name-tree nodes -/
+def treeJunk : List Obj :=
+  let s := sO
   let kNums := CatalogRules.kNums
   let kNames := CatalogRules.kNamesKey
   let kKids := CatalogRules.kKids
   let kLimits := CatalogRules.kLimits
-  [.int 42, .name (asc "Foo"), s "foo", .bool true, .null, .real 1 2, mkArr [], dictOf [],
-   mkArr [.int 1, .int 2, .int 3], mkArr [.int 1, .int 2, .int 3, .name (asc "x")],
-   mkArr [.int 1, .int 2, .int 3, .int 4, .int 5], mkArr [.int 0, .int 0, .real 612 1, .int 792],
-   s "D:20201", s "D:202013", s "D:2020Z", s "D:20200231", s "D:20201231235959+24'00", s "D:2020123123595",
-   s "D:20201231235959Z00'00''", s "2020", s "D:", s "D:1999",
-   -- `\d` of the regex crate is the Unicode class Nd: ARABIC-INDIC digits in the year
-   .str ([0x44, 0x3A, 0xD9, 0xA1, 0xD9, 0xA9, 0xD9, 0xA9, 0xD9, 0xA9]),
-   .str ([0x44, 0x3A, 0x31, 0x39, 0x39, 0xFF]),
-   -- trees
-   dictOf [(kNums, .int 42)], dictOf [(kNums, mkArr [.int 1])], dictOf [(kNums, mkArr [s "a", .ref 5 0])],
+  [dictOf [(kNums, .int 42)], dictOf [(kNums, mkArr [.int 1])], dictOf [(kNums, mkArr [s "a", .ref 5 0])],
    dictOf [(kNums, mkArr [.int 1, .int 2])], dictOf [(kNums, mkArr []), (kKids, mkArr [])],
    dictOf [(kKids, mkArr [.int 1])], dictOf [(kKids, .int 3)], dictOf [(kLimits, mkArr [.int 1]), (kNums, mkArr [])],
    dictOf [(kLimits, mkArr [.int 1, s "z"]), (kNums, mkArr [])],
    dictOf [(kNames, mkArr [.int 1, .ref 5 0])], dictOf [(kNames, mkArr [s "a", .ref 5 0])], dictOf [(kNums, mkArr [.int 1, .ref 5 0])],
    dictOf [(kNames, .int 42)], dictOf [(kNames, mkArr [s "a"])], dictOf [(kNames, mkArr [s "a", .int 1])],
    dictOf [(kNames, mkArr []), (kKids, mkArr [])], dictOf [(kKids, mkArr [.ref 5 0]), (kNames, .null)],
-   -- name dictionaries
-   dictOf [(CatalogRules.kDests, s "foo")], dictOf [(CatalogRules.kDests, dictOf [(kNames, mkArr [.int 1, .ref 5 0])])],
-   dictOf [(CatalogRules.kEmbeddedFiles, dictOf [(kNames, .int 3)])], dictOf [(CatalogRules.kEmbeddedFiles, dictOf [])],
-   dictOf [(CatalogRules.kDests, dictOf [(kNames, mkArr [s "a", .ref 5 0])])]]
-  ++ -- every ill-formed name-tree node below /Dests and /EmbeddedFiles, number-tree nodes with odd arrays
-  ([dictOf [(kNames, .int 42)], dictOf [(kNames, mkArr [s "a"])], dictOf [(kNames, mkArr [s "a", .int 1])],
-    dictOf [(kNames, mkArr [s "a", .ref 5 0, s "b"])], dictOf [(kNames, mkArr [.int 1, .ref 5 0])],
-    dictOf [(kNames, mkArr []), (kKids, mkArr [])], dictOf [], dictOf [(kKids, mkArr [.int 1])], dictOf [(kKids, .int 3)],
-    dictOf [(kLimits, mkArr [s "a"]), (kNames, mkArr [])], dictOf [(kLimits, mkArr [s "a", .int 1]), (kNames, mkArr [])],
-    dictOf [(kLimits, mkArr [s "a", s "b", s "c"]), (kKids, mkArr [])], dictOf [(kLimits, mkArr [s "a", s "b"])],
-    s "foo", .int 1, mkArr []].flatMap fun t =>
-      [dictOf [(CatalogRules.kDests, t)], dictOf [(CatalogRules.kEmbeddedFiles, t)]])
-  ++ [dictOf [(kNums, mkArr [.int 1, .ref 5 0, .int 2])], dictOf [(kLimits, mkArr [.int 1, .int 2, .int 3]), (kKids, mkArr [])],
-      dictOf [(kLimits, mkArr [.int 1, .int 2])], dictOf [(kKids, mkArr [.ref 5 0, .int 1])]]
+   dictOf [(kNums, mkArr [.int 1, .ref 5 0, .int 2])], dictOf [(kLimits, mkArr [.int 1, .int 2, .int 3]), (kKids, mkArr [])],
+   dictOf [(kLimits, mkArr [.int 1, .int 2])], dictOf [(kKids, mkArr [.ref 5 0, .int 1])]]
+
+/-- name dictionaries: EVERY ill-formed name-tree node (and some well-formed ones) below EACH of the ten keys -/
+def nameDictJunk : List Obj :=
+  let s := sO
+  let kNames := CatalogRules.kNamesKey
+  let kKids := CatalogRules.kKids
+  let kLimits := CatalogRules.kLimits
+  [dictOf [(kNames, .int 42)], dictOf [(kNames, mkArr [s "a"])], dictOf [(kNames, mkArr [s "a", .int 1])],
+   dictOf [(kNames, mkArr [s "a", .ref 5 0, s "b"])], dictOf [(kNames, mkArr [.int 1, .ref 5 0])],
+   dictOf [(kNames, mkArr []), (kKids, mkArr [])], dictOf [], dictOf [(kKids, mkArr [.int 1])], dictOf [(kKids, .int 3)],
+   dictOf [(kLimits, mkArr [s "a"]), (kNames, mkArr [])], dictOf [(kLimits, mkArr [s "a", .int 1]), (kNames, mkArr [])],
+   dictOf [(kLimits, mkArr [s "a", s "b", s "c"]), (kKids, mkArr [])], dictOf [(kLimits, mkArr [s "a", s "b"])],
+   dictOf [(kNames, mkArr [s "a", .ref 5 0])], s "foo", .int 1, mkArr []].flatMap fun t =>
+      CatalogRules.nameTreeKeys.map fun k => dictOf [(k, t)]
+
+def arrayOfDictJunk : List Obj :=
+  [mkArr [.int 1], mkArr [dictOf [], .name (asc "x")], mkArr [dictOf [], mkArr []], mkArr [dictOf [], strm []],
+   mkArr [.ref 5 0], mkArr [dictOf [], dictOf [(asc "K", .int 1)]]]
+
+def contentsJunk : List Obj :=
+  [mkArr [.int 1], mkArr [strm [], dictOf []], mkArr [strm [], strm [(asc "L", .int 2)]], mkArr [mkArr [strm []]],
+   mkArr [strm [], .null], mkArr [.ref 5 0]]
+
+/-- /Resources with ONE ill-typed sub-entry, for each of its eight keys (a scalar; the wrong container) -/
+def resourcesJunk : List Obj :=
+  (CatalogRules.resourceKeys.flatMap fun k =>
+    [dictOf [(k, .int 3)], dictOf [(k, if k == CatalogRules.kProcSet then dictOf [] else mkArr [])],
+     dictOf [(k, strm [])], dictOf [(k, .ref 5 0)]])
+  ++ [dictOf [(CatalogRules.kFont, dictOf []), (CatalogRules.kProcSet, mkArr [.name (asc "PDF")])],
+      dictOf [(CatalogRules.kFont, dictOf []), (CatalogRules.kProcSet, .name (asc "PDF"))]]
+
+/-- the replacement values tried under a key of value kind `vk` (ill-typed and some well-typed: filtered by
+    `Mutation.valid`): the basic menu, plus the near misses of the kind -/
+def junkFor : ValKind → List Obj
+  | .rect => basicJunk ++ rectJunk
+  | .date => basicJunk ++ dateJunk
+  | .numTree => basicJunk ++ treeJunk
+  | .nameDict => basicJunk ++ treeJunk ++ nameDictJunk
+  | .arrayOfDict => basicJunk ++ arrayOfDictJunk
+  | .contents => basicJunk ++ contentsJunk
+  | .resources => basicJunk ++ resourcesJunk
+  | .number | .int => basicJunk ++ [sO "1", mkArr [.int 1]]
+  | _ => basicJunk
 
 def otherNames : List Bytes :=
   [asc "Foo", asc "usenone", asc "UseNone", asc "SinglePage", asc "R", asc "Pages", asc "Page", asc "Template",
@@ -248,7 +407,7 @@ def mutationsAt (d : Doc) (w : Where) : List Mutation :=
        .addForbidden w key (.int 17), .addForbidden w key .null]
     let table := CatalogRules.keyTable k
     let names := table.flatMap fun (key, _) => otherNames.map fun n => Mutation.unlistedName w key n
-    let wrong := table.flatMap fun (key, _) => junk.map fun v => Mutation.wrongType w key v
+    let wrong := table.flatMap fun (key, vk) => (junkFor vk).map fun v => Mutation.wrongType w key v
     let dk := (List.range kids.length).map fun i => Mutation.directKid w i
     let dp := [Obj.int 17, mkArr [.ref (if parent == 0 then 1 else parent) 0], dictOf [], .null, .name (asc "Foo"),
                dictOf [(CatalogRules.kType, .name CatalogRules.kPages)]].map fun v => Mutation.directParent w v
@@ -271,16 +430,10 @@ def pickValid (d : Doc) (cs : Array Mutation) : Nat → Rng → Option Mutation
 /-- fixed small documents for the exhaustive stream -/
 def fixedDocs : List Doc :=
   let p (i : Nat) : Node := .page i PageOpts.none
-  let rect : Rect := ⟨.int 0, .int 0, .real 612 1, .int 792⟩
-  let date : Date := ⟨⟨2020, by decide⟩, some ⟨11, by decide⟩, some ⟨30, by decide⟩, some ⟨23, by decide⟩,
-                      some ⟨59, by decide⟩, some ⟨59, by decide⟩, some ⟨⟨1, by decide⟩, some ⟨8, by decide⟩, some ⟨0, by decide⟩, true⟩⟩
-  let po : PageOpts := ⟨some [901], some rect, some (asc "id"), some date, some rect, some 90, some ⟨2, by decide⟩, some (.real 3 2)⟩
-  let co : CatOpts := ⟨some (asc "en"), some 20, some (.leaf [(asc "a", 801)] none), some (.inner [802] (some (asc "a", asc "b"))),
-                       some true, some true, some 21, some (.leaf [(0, 803), (5, 804)] (some (0, 5))), some ⟨1, by decide⟩,
-                       some ⟨3, by decide⟩, some (asc "1.7")⟩
   [ ⟨CatOpts.none, 1, 0, .nil⟩,
     ⟨CatOpts.none, 1, 1, Nodes.ofList [p 2]⟩,
-    ⟨co, 1, 3, Nodes.ofList [.page 2 po, .tmpl 3 po, .pages 4 1 (Nodes.ofList [p 5])]⟩,
+    -- EVERY entry of the catalog, page and template types (Spec/CatalogRules.lean)
+    CatalogRules.exDocFull,
     ⟨CatOpts.none, 1, 4, Nodes.ofList [.pages 2 3 (Nodes.ofList [.pages 3 2 (Nodes.ofList [p 4, .tmpl 5 PageOpts.none]), p 6]), p 7]⟩,
     ⟨{ CatOpts.none with pageLabels := some (.inner [805] none), dests := some (.inner [] none) }, 1, 2,
       Nodes.ofList [.pages 2 0 .nil, .pages 3 2 (Nodes.ofList [p 4, p 5])]⟩ ]
